@@ -448,6 +448,27 @@ def _hook(k, wname, hname, spec, counters):
     return hook
 
 
+_SIM_CLASSES = {}
+
+
+def simify_arbiter(arb):
+    """The daemon as circusd runs it (it owns the loop: quit stops the loop, Arbiter.start's epilogue closes the sockets) —
+    except inside Arbiter.start() itself, which takes its provided-loop branch so that the harness, not a blocking
+    start_io_loop(), drives the loop.  Done by giving the instance a subclass whose `_provided_loop` answers by caller."""
+    base = type(arb)
+    if getattr(base, "_verif_sim", False):
+        return
+    if base not in _SIM_CLASSES:
+        def _get(self):
+            return sys._getframe(1).f_code.co_name == "start"
+
+        def _set(self, v):
+            pass
+        _SIM_CLASSES[base] = type("Sim" + base.__name__, (base,), {"_provided_loop": property(_get, _set), "_verif_sim": True})
+    arb.__dict__.pop("_provided_loop", None)
+    arb.__class__ = _SIM_CLASSES[base]
+
+
 class Sim(object):
     """one scenario on the real code"""
 
@@ -513,7 +534,7 @@ class Sim(object):
         a = self.sc.get("arb", {})
         self.arb = A.Arbiter(ws, "ipc:///dev/shm/verif-none-ctl", "ipc:///dev/shm/verif-none-pub",
                              check_delay=-1, loop=self.loop, warmup_delay=a.get("warmup_ms", 0) / 1000.0)
-        self.arb._provided_loop = False       # as in circusd: the arbiter owns the loop
+        simify_arbiter(self.arb)
         self.stop_requested = False
         self.loop.call_later = self._call_later
         self.loop.stop = self._loop_stop
@@ -598,12 +619,16 @@ class Sim(object):
         try:
             if kind == "start":
                 # Arbiter.start(): start_watchers as a coroutine on the provided loop
+                # the real Arbiter.start(), in its provided-loop form (no blocking start_io_loop), with zmq set-up stubbed
                 from circus.exc import ConflictError
-                try:
-                    f = self.arb.start_watchers()
-                    self._watch(f)
-                except ConflictError:
+                simify_arbiter(self.arb)
+                self.arb.initialize = lambda: None
+                self.arb.ctrl.start = lambda: None
+                f = self.arb.start()
+                if f.done() and isinstance(f.exception(), ConflictError):
                     k.out("o conflict")
+                else:
+                    self._watch(f)
             elif kind == "req":
                 raw = json.dumps(op[1]).encode()
                 self.arb.ctrl.handle_message([("c%d" % (op[2] if len(op) > 2 else 0)).encode(), raw])
